@@ -5,7 +5,7 @@ Everything is about the transition system of `Model.lean` (one step = the code b
 verifYield points), for ANY number of transactions / goroutines / caches / objects, any programs,
 any cache limit, with eviction (`Release`, pruning) possible at every moment.
 -/
-import SemaModel.C11.Lemmas
+import SemaModel.C11.Inv14
 import SemaModel.C11.Skeleton
 import SemaModel.Generated.FactsC11
 namespace Sema.C11
@@ -17,5 +17,80 @@ theorem C11_skeleton_with : FactsC11.withSkeleton = Skeleton.expectedWith := by 
 theorem C11_skeleton_commit : FactsC11.commitSkeleton = Skeleton.expectedCommit := by decide
 theorem C11_skeleton_prune : FactsC11.pruneSkeleton = Skeleton.expectedPrune := by decide
 theorem C11_skeleton_release : FactsC11.releaseSkeleton = Skeleton.expectedRelease := by decide
+
+/-! ## C11_released
+
+Full statement: when every started transaction has finished `Commit` (every goroutine has returned
+and has nothing left to do), every object lock, the manager mutex, every transaction mutex and the
+database write lock are free.  Hypotheses: `Init s0` (nothing cached or locked initially; programs
+are arbitrary), `s0.v = fixedV` (the model follows the current source), reachability by ANY
+interleaving of steps and evictions. -/
+
+theorem C11_released {s0 s : St} (hi : Init s0) (hv : s0.v = fixedV) (hr : Reachable s0 s)
+    (hfin : ∀ t, s.unfinished t = false) :
+    s.mgr = none ∧ (∀ T, (s.txs T).mu = none) ∧ s.dbw = none ∧
+    (∀ o, o < s.nObj → (s.objs o).readers = [] ∧ (s.objs o).writer = none) := by
+  obtain ⟨h, ho⟩ := inv_reachable hi hv hr
+  -- a thread that is not `done` does not exist (index beyond the bounds) and sits at idle / cWait
+  have hdone : ∀ t, (s.thr t).done = true ∨ (s.thr t).pc = .idle ∨ (s.thr t).pc = .cWait := by
+    intro t
+    have := hfin t
+    cases t with
+    | w i =>
+      by_cases hlt : i < s.n
+      · simp [St.unfinished, hlt] at this; exact Or.inl this
+      · exact Or.inr (Or.inl (h.kind.out i (by omega)).1)
+    | c T =>
+      by_cases hlt : T < s.nTx
+      · simp [St.unfinished, hlt] at this; exact Or.inl this
+      · exact Or.inr (Or.inr (ho.c T (Nat.le_of_not_lt hlt)))
+  have hpc : ∀ t, (s.thr t).pc = .idle ∨ (s.thr t).pc = .cWait ∨ (s.thr t).pc = .cDone := by
+    intro t
+    rcases hdone t with h1 | h1 | h1
+    · unfold Thread.done at h1
+      cases hp : (s.thr t).pc <;> simp_all
+    · exact Or.inl h1
+    · exact Or.inr (Or.inl h1)
+  have hmgr : s.mgr = none := by
+    cases hm : s.mgr with
+    | none => rfl
+    | some t =>
+      have := (h.mgr t).mp hm
+      rcases hpc t with h1 | h1 | h1 <;> simp [h1, holdsMgr] at this
+  have hmu : ∀ T, (s.txs T).mu = none := by
+    intro T
+    cases hm : (s.txs T).mu with
+    | none => rfl
+    | some t =>
+      have := ((h.tx T t).mp hm).2
+      rcases hpc t with h1 | h1 | h1 <;> simp [h1, holdsTx] at this
+  refine ⟨hmgr, hmu, ?_, ?_⟩
+  · cases hd : s.dbw with
+    | none => rfl
+    | some T =>
+      have h1 := ho.db T hd
+      have := hfin (.c T)
+      simp [St.unfinished, h1.2, Thread.done, h1.1] at this
+  · intro o ho'
+    constructor
+    · cases hrd : (s.objs o).readers with
+      | nil => rfl
+      | cons t r =>
+        have hm : t ∈ (s.objs o).readers := by rw [hrd]; simp
+        have hdf := (h.rd.rl t o).mp hm
+        have hok := h.defers t
+        unfold DefersOK at hok
+        rcases hpc t with h1 | h1 | h1 <;> simp [h1] at hok <;> rw [hok.2] at hdf <;> simp at hdf
+    · cases hw : (s.objs o).writer with
+      | none => rfl
+      | some T =>
+        rcases (h.w o T ho').mp hw with h1 | ⟨h1, h2⟩
+        · have := h.pend T
+          rw [hmu T, h1] at this; exact absurd this (by simp)
+        · by_cases hlt : T < s.nTx
+          · have := hfin (.c T)
+            simp [St.unfinished, hlt, Thread.done] at this
+            cases hp : (s.thr (.c T)).pc <;> simp [hp] at this <;> simp [stillHeld, hp] at h2
+          · rw [ho.wr T (Nat.le_of_not_lt hlt)] at h1; simp at h1
 
 end Sema.C11
